@@ -341,9 +341,10 @@ for fn, q in [("c04_filebuf_read_slice", True), ("c04_filebuf_write_slice", True
         stubs=[STUB_FMT], role=fn)
 # c04_split_* and c17_dirty_split_* exist in the harness file but are NOT registered: IoBuffers::split_at
 # (VecDeque::split_off + pop/push) ran out of memory at 24 GB for every offset tried (see DESIGN.md).
-for fn, q in [("c17_dirty_write_8_8", True), ("c17_dirty_write_3_8", True), ("c17_dirty_read_8_8", True)]:
+for fn, q in [("c17_dirty_write_8_8", True), ("c17_dirty_write_3_8", True), ("c17_dirty_read_8_8", True), ("c17_dirty_write_0_8", True), ("c17_dirty_write_8_0", False),
+              ("c17_dirty3_4_0_4", True), ("c17_dirty3_3_2_4", False)]:
     reg(IOB, fn, ["C17"], flavour="real", tier="quick" if q else "thorough", timeout=900, mem=24,
-        what="dirty marking of IoBuffers::consume with a recording BitmapSlice", bounds="two segments with distinct bitmap bases; count, written k, failure and the probed guest byte symbolic",
+        what="dirty marking of IoBuffers::consume with a recording BitmapSlice", bounds="two (dirty3: three) segments of concrete lengths, possibly empty, with distinct bitmap bases; count, written k, failure and the probed guest byte symbolic",
         functions=IOB_FUNCS + ["vm_memory::Bitmap::mark_dirty via VolatileSlice::bitmap()"], stubs=[STUB_FMT, "RecBitmap: harness BitmapSlice that records mark_dirty(offset,len) relative to a base"], role=fn)
 
 
